@@ -210,4 +210,3 @@ func H_TeardownContexts() {
 	// a later event must not panic on an already released waiter
 	c.CacheRemove(mkRes(entry{id: "r", version: 3}))
 }
-
